@@ -159,10 +159,10 @@ class SpecMixin:
             cnd = self.truth(self.eval(n.args[0]))
             return self.ite(cnd, self.eval(n.args[1]), self.eval(n.args[2]))
         if name == "old":
-            key = n.args[0].value if isinstance(n.args[0], ast.Constant) else ast.unparse(n.args[0])
-            if key in self.old:
-                return self.old[key]
-            return self.with_envs(self.old_envs, lambda: self.eval(n.args[0]))
+            a0 = n.args[0]
+            if isinstance(a0, ast.Constant) and isinstance(a0.value, str):
+                a0 = parse_expr(a0.value)
+            return self.with_envs(self.old_envs, lambda: self.eval(a0))
         if name == "joinr":
             sep, xs, a, b = (self.eval(x) for x in n.args)
             xs = self.as_vlist(xs, "str")
